@@ -1303,19 +1303,87 @@ def impl_run_conc(c):
     return out
 
 
+CONC_KINDS = [["gen", 0], ["gen", 1], ["file", False], ["http", True], ["s3", 1, None], ["file", True], ["gen", 2],
+              ["http", False], ["s3", 0, None]]
+STEPS_PER_CHECK = 6      # start | etag | load | (to set_policy) | (set_policy) | rest; surplus steps are no-ops
+
+
+def conc_case(kind, order, evs_at, forces, nows, rng, fam, *, cfg=None, il=None, straddle=None, us=None):
+    """two overlapping checks run in the given order of steps (thread numbers), world events before the k-th step
+    (evs_at[k]; k = len(order): after the last one); then the world is made loadable and three sequential unforced
+    checks, each beyond any back-off window, follow (c["tail"] = their check numbers)."""
+    world = init_world(kind, 0)
+    pick_u = (lambda: rng.choice(US)) if us is None else (lambda: us)
+    script = [["spawn", bool(forces[0])], ["spawn", bool(forces[1])]]
+    for k, who in enumerate(order):
+        for ev in evs_at.get(k, []):
+            script.append(["ev", ev])
+        script.append(["step", who, nows[who], pick_u()])
+    for ev in evs_at.get(len(order), []):
+        script.append(["ev", ev])
+    w = World(world)
+    for cmd in script:
+        if cmd[0] == "ev":
+            w.apply(cmd[1])
+    fix = []
+    if w.fail_etag:
+        fix.append(["fail_etag", False])
+    if w.fail_load:
+        fix.append(["fail_load", False])
+    if w.store is None or w.store[0][0] != "d":
+        fix.append(["write", ["d", 31]])
+    straddle = (rng.random() < 0.25) if straddle is None else straddle
+    mid = fix.pop() if (straddle and fix) else None   # the world stabilises between etag() and load() of tail check 1
+    for ev in fix:
+        script.append(["ev", ev])
+    tail = []
+    t = max(nows)
+    for k in range(3):
+        t += BIG
+        i = 2 + k
+        tail.append(i)
+        script.append(["spawn", False])
+        u = pick_u()
+        for j in range(STEPS_PER_CHECK):
+            if j == 2 and k == 0 and mid is not None:
+                script.append(["ev", mid])
+            script.append(["step", i, t, u])
+    return {"kind": kind, "cfg": cfg or rng.choice(CFGS[:5]), "initial_load": (rng.random() < 0.5) if il is None else il,
+            "async": False, "p0": 1, "world": world, "script": script, "conc": True, "tail": tail,
+            "fam": fam, "flavour": flavour_for(kind, rng)}
+
+
+def _orders(n):
+    """all interleavings of n + n steps of checks 0 and 1."""
+    out = []
+    for pos in itertools.combinations(range(2 * n), n):
+        o = [1] * (2 * n)
+        for p_ in pos:
+            o[p_] = 0
+        out.append(tuple(o))
+    return out
+
+
+def _drain(rng):
+    """the two surplus steps of each overlapping check (they matter only when a check can be pre-empted around
+    set_policy), in a seeded order."""
+    d = [0, 0, 1, 1]
+    rng.shuffle(d)
+    return d
+
+
 def gen_conc_cases(chk):
-    """two checks (unforced/forced) over a custom content-tagged or version-tagged source, the world changing
-    once at any point: every interleaving of their (at most 4 + 4) steps."""
+    """two checks (unforced/forced) over a custom content-tagged or version-tagged source (and the file, HTTP and S3
+    sources), every interleaving of their 4 + 4 model steps (+ 2 + 2 surplus steps in a seeded order):
+      conc2  - the world changing once or twice at seeded points, any event;
+      conc2w - one new document written at each of the 9 points between the steps."""
     rng = chk.rng
     cases = []
-    orders = sorted(set(itertools.permutations([0] * 4 + [1] * 4)))     # all 70 interleavings of 4 + 4 steps
-    kinds = [["gen", 0], ["gen", 1], ["file", False], ["http", True], ["s3", 1, None], ["file", True], ["gen", 2],
-             ["http", False], ["s3", 0, None]]
+    orders = _orders(4)                                                     # all 70 interleavings of 4 + 4 steps
     n_var = 12 if chk.tier == "thorough" else 3
     for oi, order in enumerate(orders):
         for variant in range(n_var):
-            kind = kinds[(oi + variant) % len(kinds)]
-            world = init_world(kind, 0)
+            kind = CONC_KINDS[(oi + variant) % len(CONC_KINDS)]
             evs = {}
             for _ in range(rng.choice([1, 1, 2])):
                 ev = rng.choice([["write", ["d", 21]], ["write", ["d", 22]], ["write", ["b", 2]], ["delete"],
@@ -1323,17 +1391,30 @@ def gen_conc_cases(chk):
                                                                     if kind[0] == "gen" else []))
                 evs.setdefault(rng.randrange(0, 9), []).append(ev)
             f0, f1 = rng.random() < 0.25, rng.random() < 0.25
-            script = [["spawn", f0], ["spawn", f1]]
-            t0, t1 = 1.0, rng.choice([1.0, 1.5, 40.0])
-            for k, who in enumerate(order):
-                for ev in evs.get(k, []):
-                    script.append(["ev", ev])
-                script.append(["step", who, t1 if who else t0, rng.choice(US)])
-            for ev in evs.get(8, []):
-                script.append(["ev", ev])
-            cases.append({"kind": kind, "cfg": rng.choice(CFGS[:5]), "initial_load": rng.random() < 0.5,
-                          "async": False, "p0": 1, "world": world, "script": script, "conc": True,
-                          "fam": "conc2", "flavour": flavour_for(kind, rng)})
+            cases.append(conc_case(kind, list(order) + _drain(rng), evs, (f0, f1), (1.0, rng.choice([1.0, 1.5, 40.0])),
+                                   rng, "conc2"))
+        for pos in range(9):
+            kind = CONC_KINDS[(oi + pos) % len(CONC_KINDS)]
+            f0, f1 = rng.random() < 0.2, rng.random() < 0.2
+            cases.append(conc_case(kind, list(order) + _drain(rng), {pos: [["write", ["d", 21]]]}, (f0, f1),
+                                   (1.0, rng.choice([1.0, 1.5])), rng, "conc2w"))
+    return cases
+
+
+def gen_fine_cases(chk):
+    """run only when a check was seen entering guard.set_policy without the reloader's lock (the apply-block is then
+    not atomic): every interleaving (924) of the 6 + 6 pre-emptible segments of two overlapping checks
+    {start | etag | load | up to set_policy | set_policy | rest}, one new document written at each of the 13 points
+    between them, then the stable tail."""
+    rng = chk.rng
+    cases = []
+    kinds = [["gen", 1], ["gen", 0], ["file", True], ["s3", 1, None], ["http", False], ["file", False], ["s3", 0, None]]
+    for oi, order in enumerate(_orders(STEPS_PER_CHECK)):
+        for pos in range(2 * STEPS_PER_CHECK + 1):
+            kind = kinds[(oi + pos) % len(kinds)]
+            f0, f1 = rng.random() < 0.2, rng.random() < 0.2
+            cases.append(conc_case(kind, list(order), {pos: [["write", ["d", 21]]]}, (f0, f1), (1.0, 1.5), rng,
+                                   "conc2fine", straddle=False))
     return cases
 
 
@@ -1480,16 +1561,25 @@ def check_cases(chk, cases, replay=False):
                 break
 
 
+NONATOMIC = {"with_lock": 0, "without_lock": 0, "cases": 0}
+
+
 def _check_conc(chk, c, out, m_out):
-    """overlapping checks: compare every snapshot with the model; judge the safety invariant on the
-    implementation: policy is p0 or a loaded document (by id), clear count = number of checks that returned True."""
+    """overlapping checks: compare every snapshot with the model; judge on the implementation: the safety invariant
+    (policy is p0 or a loaded document (by id), clear count = number of checks that returned True) and, when the
+    script ends with the stable tail, the convergence clause."""
     snaps = out["snaps"]
+    NONATOMIC["with_lock"] += out.get("sp_locked", 0)
+    NONATOMIC["without_lock"] += out.get("sp_unlocked", 0)
+    if out.get("sp_unlocked"):
+        NONATOMIC["cases"] += 1
+        chk.count("conc:set_policy-without-reloader-lock")
     if len(snaps) != len(m_out):
         chk.corr_break("number of snapshots (overlapping checks)", c, impl=len(snaps), model=len(m_out), theorems=THEOREMS)
         return
     last = snaps[-1]
     results = last[9]
-    chk.count("conc:true=%d" % sum(1 for r in results if r is True))
+    chk.count("conc:true=%d" % sum(1 for r in results[:2] if r is True))
     if any(r not in (True, False, None) for r in results):
         chk.violation("an overlapping check raised", c, impl=snaps)
         return
@@ -1500,13 +1590,33 @@ def _check_conc(chk, c, out, m_out):
     if last[2] != sum(1 for r in results if r is True):
         chk.violation("overlapping checks: cache clears != number of checks that returned True", c, impl=snaps, model=m_out)
         return
+    # --- convergence once the overlapping checks have returned and the source is stable and loadable
+    verdict, detail = conc_tail_verdict(c, out)
+    if verdict is not None:
+        chk.count("conc-tail:" + verdict)
+    if verdict in ("F9", "F20"):
+        if witness_fails(verdict):
+            chk.known(verdict)
+        else:
+            verdict, detail = "failed", (detail[0] + " [class of %s, whose witness no longer fails]" % verdict, detail[1])
+    if verdict == "failed":
+        chk.violation("after two overlapping checks: " + detail[0], c,
+                      impl={"detail": detail[1], "checks": out["threads"], "returned_in_order": out["finish_order"],
+                            "set_policy_entered_without_reloader_lock": out.get("sp_unlocked", 0), "snaps": snaps},
+                      model=m_out)
+        return
     for ix, (i_s, m_s) in enumerate(zip(snaps, m_out)):
         bad = compare_snap(i_s, m_s)
         if i_s[9] != m_s[9]:
             bad.append("which checks have returned what")
         if bad:
-            chk.corr_break("overlapping checks: observables differ from the model after command %d: %s"
-                           % (ix - 1, ", ".join(bad)), c, impl={"at": ix - 1, "snapshot": i_s, "all": snaps},
+            why = ""
+            if out.get("sp_unlocked"):
+                why = (" [guard.set_policy was entered %d times without the reloader's lock: installing the document "
+                       "and recording its tag is not the one atomic step of the model (Reload.step, PApply)]"
+                       % out["sp_unlocked"])
+            chk.corr_break("overlapping checks: observables differ from the model after command %d: %s%s"
+                           % (ix - 1, ", ".join(bad), why), c, impl={"at": ix - 1, "snapshot": i_s, "all": snaps},
                            model={"snapshot": m_s, "tag": tag_str(m_s[5])}, theorems=THEOREMS)
             return
 
@@ -1534,7 +1644,12 @@ def run(chk):
                 "source's document or from an unrelated one, six back-off configurations, checks run through "
                 "check_and_reload_async, check_and_reload (no loop / under a running loop) and poll_once; plus every "
                 "interleaving (70) of the atomic steps of two overlapping checks, forced on real threads by gates around the "
-                "source calls, with world events in between, and free-running threads judged on the safety clauses only. "
+                "source calls and around guard.set_policy, with seeded world events in between and with one new document "
+                "written at each of the 9 points between the steps, each followed by a stable tail of three sequential "
+                "unforced checks on which convergence is judged on the implementation (a check that enters set_policy "
+                "without the reloader's lock is pre-empted there; if that ever happens all 924 interleavings of the "
+                "6 + 6 segments {start, etag, load, up to set_policy, set_policy, rest} x 13 write points are run as "
+                "well), and free-running threads judged on the safety clauses only. "
                 "non-trivial = at least one check and (a world event or a primed tag); distinct = distinct "
                 "(source configuration, reloader configuration, initial world, script)")
     chk.assumptions = [
@@ -1545,6 +1660,14 @@ def run(chk):
         "the polling thread (_run_loop) is modelled only as 'calls check repeatedly'; network and S3 are fakes",
         "two truly concurrent checks: model = all interleavings of the lock-delimited blocks and source calls; on the "
         "implementation the same interleavings are forced on real threads by gates around the source calls",
+        "the model's step granularity makes 'install the document (guard.set_policy) + record its tag and reset the "
+        "back-off' ONE atomic step (Reload.step, case PApply; the convergence theorems for overlapping checks rest on "
+        "it).  The implementation provides it by calling set_policy with HotReloader's lock held.  This is tested, not "
+        "assumed: in every overlapping-checks case guard.set_policy runs through a scheduler gate at entry and exit; a "
+        "check arriving there without holding a lock object of the reloader is parked so that the other check runs in "
+        "between, and the safety and convergence clauses are judged on the outcome (coverage.apply_atomicity counts the "
+        "set_policy calls seen with / without the lock; 'without' must be 0 for the model to describe the code).  With "
+        "the lock held no pre-emption is attempted inside the block (another check could only block on the lock)",
         "float arithmetic: inputs are dyadic, so the only roundings are `now + 0.2` and products with jitter_ratio 0.15; "
         "suppressed_until/backoff are compared with relative tolerance 1e-9",
     ]
@@ -1555,11 +1678,25 @@ def run(chk):
         check_cases(chk, cases[k:k + 25000])
     conc = gen_conc_cases(chk)
     check_cases(chk, conc)
+    n_fine = 0
+    if NONATOMIC["without_lock"]:
+        # the apply-block is not atomic on this tree: enumerate the interleavings of its parts too (until enough
+        # failing histories are at hand: the tree is defective anyway)
+        fine = gen_fine_cases(chk)
+        enough = 40 if chk.tier == "thorough" else 8
+        for k in range(0, len(fine), 1500):
+            check_cases(chk, fine[k:k + 1500])
+            n_fine += len(fine[k:k + 1500])
+            if len(chk.violations) >= enough:
+                break
     stress = gen_stress_cases(chk)
     check_cases(chk, stress)
     chk.exhaustive = True
     chk.extra["cases"] = {"corpus": len(corp), "sequential": len(cases), "overlapping_gated": len(conc),
-                          "overlapping_free_running": len(stress)}
+                          "overlapping_gated_apply_block_split": n_fine, "overlapping_free_running": len(stress)}
+    chk.extra["apply_atomicity"] = {"set_policy_calls_with_reloader_lock_held": NONATOMIC["with_lock"],
+                                    "set_policy_calls_without_it_(pre-empted_there)": NONATOMIC["without_lock"],
+                                    "overlapping_cases_with_such_a_call": NONATOMIC["cases"]}
     chk.extra["open_finding_witness_still_fails"] = {f: witness_fails(f) for f in ("F9", "F20")}
     chk.extra["partial"] = ("the polling thread's timing loop is modelled only as 'calls check repeatedly'; network and "
                             "S3 are fakes; each etag()/load() call is atomic with respect to the world")
